@@ -46,7 +46,7 @@ def norm(s):
 MEM_FUNCS = ["popstate", "delim_error", "write_codepoint", "escapeh", "escapeu", "escape1", "stringend", "stringchar", "tokenchar",
              "comment", "close_tuple", "close_array", "close_struct", "close_table", "longstring", "atsign", "root",
              "janet_parser_consume", "janet_parser_eof", "janet_parser_flush", "janet_parser_error", "janet_parser_produce",
-             "janet_parser_produce_wrapped"]
+             "janet_parser_produce_wrapped", "parser_state_delimiters"]
 
 P = r"(?:p|parser)"
 ID = r"[A-Za-z_]\w*"
@@ -68,7 +68,7 @@ MEM_PATTERNS = [
     (P + r"->statecount\s*--|--\s*" + P + r"->statecount", "statecount--"),
     (P + r"->argcount\s*--|--\s*" + P + r"->argcount", "argcount--"),
     (P + r"->argcount\s*-=\s*" + ID + r"->argn", "argcount-=argn"),
-    (P + r"->bufcount\s*=\s*0\b", "bufcount=0"), (P + r"->argcount\s*=\s*0\b", "argcount=0"), (P + r"->statecount\s*=\s*1\b", "statecount=1"),
+    (P + r"->bufcount\s*=\s*0\b", "bufcount=0"), (P + r"->bufcount\s*=\s*" + ID + r"\s*;", "bufcount=saved"), (P + r"->argcount\s*=\s*0\b", "argcount=0"), (P + r"->statecount\s*=\s*1\b", "statecount=1"),
     (P + r"->(statecount|argcount|bufcount)\s*(?:[-+*/]?=(?!=)|\+\+)", "WRITE:\\1"),
     (P + r"->(states|args|buf)\s*=(?!=)", "WRITE:\\1"),
     # indexed reads / writes
@@ -107,7 +107,7 @@ def mem_ops(body, fn):
 
 def _stack_of(ev):
     """The single stack an event touches (None: a call / several stacks: ordered w.r.t. everything)."""
-    if ev in ("push_buf", "bufcount=0", "buf[0]"):
+    if ev in ("push_buf", "bufcount=0", "buf[0]", "bufcount=saved"):
         return "buf"
     if ev in ("pushstate", "statecount--", "statecount=1", "states[0]", "states[statecount-1]", "states+statecount-1", "states+stack_index",
               "states[--statecount]"):
@@ -245,7 +245,7 @@ def extract(tree):
     # touches a count, a block or calls a stack primitive
     known = set(MEM_FUNCS) | {"janet_parser_init", "janet_parser_clone", "janet_parser_deinit", "pushstate"}
     for fn, body in all_functions(src):
-        if fn in known or fn in ("cfun_parse_insert", "parser_state_delimiters", "parser_state_frames", "janet_wrap_parse_state", "parsermark"):
+        if fn in known or fn in ("cfun_parse_insert", "parser_state_frames", "janet_wrap_parse_state", "parsermark"):
             continue
         ops = [o for o in mem_ops(body, fn) if o not in ("consume", "eof", "flush", "error", "produce", "produce_wrapped", "status")]
         if ops:
